@@ -944,8 +944,7 @@ def gen_aln_model(rng):
         # halve every coordinate: usually a non-discrete genome (positions printed with 17 decimals in nexus)
         m.L /= 2
         m.edges = [(l / 2, r_ / 2, p, c, md) for l, r_, p, c, md in m.edges]
-        m.sites = [(x / 2,) + rest for x, *rest in m.sites]
-        m.sites = [tuple(s_) for s_ in m.sites]
+        m.sites = [(s_[0] / 2,) + tuple(s_[1:]) for s_ in m.sites]
         m.tags.add("coordinates-halved")
     r = rng.random()
     if r < 0.35:
